@@ -67,6 +67,16 @@ CHECKS = {
         "Trusted: CPython datetime; int arithmetic; day<->date bijection (C01).",
         "DESIGN.md §2 C15",
     ),
+    "C18": (
+        "exploration",
+        "Hypothesis property-based testing against a Python set/range reference model + enumerated (la, lb, delta) grid",
+        "DateInterval pairs on the (la, lb, delta) grid in every calendar (full grid x 50 anchors per calendar in the "
+        "thorough tier) and generated Interval pairs with unbounded/empty ends are compared with set operations on day "
+        "numbers / int nanoseconds: len, iteration, membership, containment, intersection, union (defined iff "
+        "overlapping or adjacent), commutativity, constructor and mixed-calendar rejections, YearMonth.to_date_interval.",
+        "Trusted: Python sets/ranges; day<->date bijection (C01).",
+        "DESIGN.md §2 C18",
+    ),
 }
 
 NOT_YET = {}
